@@ -831,9 +831,11 @@ class Dict(dict, base.Symbolic, pg_typing.CustomTyping):
     self._invalidate_content_caches()
 
     if value_spec:
-      # Changes are reported once, below.
+      # Changes are reported once, below. `clear` is a method, not an accessor:
+      # re-applying the defaults must not depend on `accessor_writable`.
       with flags.notify_on_change(False):
-        self.use_value_spec(value_spec, self._allow_partial)
+        with flags.allow_writable_accessors(True):
+          self.use_value_spec(value_spec, self._allow_partial)
 
     if flags.is_change_notification_enabled() and old_items:
       target = self
